@@ -28,7 +28,8 @@ HRel(k, i, a) == HV(k, 6, i, "", <<>>, a, 0)      \* int i + a * (module width o
 HintValues(k) ==
   CASE k = "ERROR_CORRECTION" -> {HV(k, 3, i, "", <<>>, 0, 0) : i \in {0, 1, 2, 3, 7, -1}}
                                    \cup {HStr(k, "L", <<76>>), HStr(k, "H", <<72>>), HStr(k, "X", <<88>>), HStr(k, "", <<>>)}
-    [] k = "CHARACTER_SET" -> {HStr(k, n, <<>>) : n \in {"UTF-8", "ISO-8859-1", "Shift_JIS", "nope", ""}}
+    [] k = "CHARACTER_SET" -> {HStr(k, n, <<>>) : n \in {"UTF-8", "ISO-8859-1", "Shift_JIS", "nope", "",
+                                                          "UTF-7", "UTF-32", "ISO-2022-KR", "TIS-620"}}   \* IANA names outside the ECI registry
     [] k = "MARGIN" -> {HInt(k, i) : i \in {-200, -95, -67, -51, -21, -5, -1, 0, 1, 4, 100}}
                          \cup {HStr(k, "3", <<51>>), HStr(k, "-3", <<45, 51>>), HStr(k, "x", <<120>>), HStr(k, "", <<>>)}
                          \cup {HRel(k, i, -1) : i \in {-1, 0, 1}}
